@@ -37,6 +37,12 @@ enum Mutation {
     RandomEdit(Vec<(usize, u8)>),
     /// feed the peer's own request bytes instead of (prefix frames of) the response
     Reflect(usize),
+    /// VMess without AuthenticatedLength (what a stock v2ray client may negotiate): the length field of a chunk is only
+    /// XOR-masked. Whoever knows the size of one application write reads mask and padding length off the wire and replaces
+    /// that chunk by one that ANNOUNCES NO PAYLOAD (tag and padding only, `extra` more bytes announced), filled with
+    /// bytes of his own - a "chunk" a lazy decoder might pass over without opening it. (frame index, plaintext length of
+    /// that frame, extra)
+    ForgeEmptyVmessChunk(usize, usize, usize),
 }
 
 impl Mutation {
@@ -52,6 +58,7 @@ impl Mutation {
             Mutation::InsertAtBoundary(..) => "insert-bytes",
             Mutation::RandomEdit(..) => "random-edit",
             Mutation::Reflect(..) => "reflect-own-request",
+            Mutation::ForgeEmptyVmessChunk(..) => "forged-chunk-announcing-no-payload",
         }
     }
 }
@@ -156,6 +163,26 @@ fn apply(inst: &Inst, m: &Mutation) -> Option<(Vec<u8>, usize, bool)> {
             // the point of tampering is where the result really differs (two edits of one byte may cancel out)
             let first = (0..v.len()).find(|i| v[*i] != w[*i])?;
             (v, first, false)
+        }
+        Mutation::ForgeEmptyVmessChunk(k, plain, extra) => {
+            if *k == 0 || *k >= nf {
+                return None; // frame 0 carries the header
+            }
+            let (s, e) = frame_range(inst, *k);
+            // field = mask ^ (payload + tag + padding); the frame is field(2) + payload + tag(16) + padding
+            let total = e - s;
+            if total < 2 + plain + 16 || total - 2 - plain - 16 >= 64 {
+                return None;
+            }
+            let announced = total - 2;
+            let field = u16::from_be_bytes([w[s], w[s + 1]]);
+            let mask = field ^ announced as u16;
+            let new_len = announced - plain + extra;
+            let mut v = w[..s].to_vec();
+            v.extend_from_slice(&(mask ^ new_len as u16).to_be_bytes());
+            v.extend((0..new_len).map(|i| (i as u8).wrapping_mul(37) ^ w[s]));
+            v.extend_from_slice(&w[e..]);
+            (v, s, false)
         }
         Mutation::Reflect(keep) => {
             if inst.request_wire.is_empty() || *keep > nf {
@@ -380,6 +407,15 @@ fn one_case(seed: u64, i: u64, thorough: bool, rep: &mut Report, rt: &mut tokio:
         // SIP004 has no direction marker (reflection decrypts by design); the property names SS2022 and VMess
         if !matches!(spec.cfg.proto, Proto::Ss(m) if !m.is_2022()) {
             muts.push(Mutation::Reflect(k));
+        }
+    }
+    // VMess, length fields not authenticated (reference client with an option mask without AuthenticatedLength talking to
+    // the real server): every chunk but the first replaced by a forged one that announces no payload
+    if matches!(spec.cfg.proto, Proto::Vmess(_)) && matches!(spec.source, Source::Ref) && matches!(spec.role, Role::ServerStream) && spec.vmess_option & 0x10 == 0 {
+        for k in 1..nf {
+            let plain = spec.writes.get(k).map(|w| w.len()).unwrap_or(0);
+            muts.push(Mutation::ForgeEmptyVmessChunk(k, plain, 0));
+            muts.push(Mutation::ForgeEmptyVmessChunk(k, plain, 1));
         }
     }
     for _ in 0..if thorough { 60 } else { 20 } {
